@@ -289,6 +289,22 @@ class IsaCheck:
                 continue
             fixed = None
             imprecise = [t_ for t_ in st.tags if t_ in ("opaque-switch", "opaque-assert", "unknown-callee", "unwrap-opaque")]
+            if o.kind == "panic":
+                # a panic is a finding for EVERY word sequence that reaches it - also for sequences that encode nothing (an illegal
+                # opcode must surface as an error): reported here when no implemented form covers the trace (compare() reports the rest)
+                covered = 0
+                for name, (f, cond, sem0) in self.sems.items():
+                    covered = Mx.OR(covered, Mx.AND(cond, sem0.assume))
+                rest = Mx.AND(Mx.AND(st.pc, self.pre), Mx.NOT(covered))
+                if rest != 0:
+                    self.cls = "panic"
+                    self.count(False)
+                    if imprecise:
+                        self.add(["ENGINE"], "undefined encoding", "imprecise", "a panic trace outside the implemented forms was followed imprecisely (%s): not decidable" % ",".join(imprecise), rest)
+                    else:
+                        self.add(["C15"], "undefined encoding", "panic:%s:%s" % (o.info.get("kind"), o.info["fn"].split("::")[-1]),
+                                 "panic (%s %s) reachable in %s line %s for a word sequence that encodes no implemented instruction (it must be rejected with an error)"
+                                 % (o.info.get("kind"), o.info.get("op"), o.info["fn"], o.info.get("line")), rest, {"stack": o.info.get("stack"), "line": o.info.get("line")})
             for name, (f, cond, sem0) in self.sems.items():
                 if Mx.AND(Mx.AND(st.pc, cond), sem0.assume) == 0:
                     continue
